@@ -40,6 +40,22 @@
      pclass_scale       pmusic / pev objects (real / complex layout, scale_by_freq)
      class_scale_every_table   for EVERY pipeline table: stored PSD (k * functional result) = k * stored PSD (functional result)
      class_arma_scale   AR / MA / ARMA classes: arma2psd(s*rho) at T = sampling and the stored PSD are multiplied by s
+     ma_scale           arma.ma (C15's model Model/ArmaEst.v: aryule twice): ma(c*x) = (same MA coefficients, |c|^2 rho), same exception;
+                        guard: the data are not identically zero (then no Levinson stage divides by zero)
+     arma_estimate_scale_solvers   arma_estimate(c*x) = (same AR, same MA, |c|^2 rho), same exception (AssertionError / ValueError /
+                        IndexError in the order of the code), for EVERY P, Q, lag and ANY two pairs of covariance-method oracles that
+                        return the same coefficients on the two systems they are handed (the system of c*x is |c|^2 times the system
+                        of x; only the [0:P] slice of arcovar_marple's output is compared); guard: the residual handed to ma is not
+                        identically zero (the hypothesis of C15's arma_rho_pos)
+     arma_estimate_scale   the same for one pair of oracles that do not see a common non-zero factor of their input [ls_homogeneous]
+     ls_cov_homogeneous    ... which the executable solver of Model/Ls.v (arcovar: corrmtx + Gaussian elimination on the normal
+                        equations with exact zero tests) is, unconditionally
+     ls_exact_homogeneous  ... and which the oracles of C15's correspondence run (ls_exact / lsm_exact: elimination without
+                        pivoting, no zero tests) are whenever no pivot is zero; arma_estimate_exact_scale: arma_estimate with them
+     arma_class_call_scale  ArmaEst.class_call (what parma / pma / pyule / pburg / pcovar / pmodcovar __call__ hand to arma2psd and
+                        store): v -> s*v gives the same stored ar / ma, s*rho, s*psd (real and complex layout, scale_by_freq)
+     parma_scale_solvers, parma_scale, pma_scale   parma.__call__ / pma.__call__ = estimator then class pipeline (Model/ArmaCall.v):
+                        the object built from c*x stores the same ar / ma, |c|^2 rho and |c|^2 times the PSD, or raises the same exception
    PROVED over the GENERATED table (tools/props/_pipelines.py, recompiled from the snapshot on every run by tools/props/C03.py
    through ctx.check_generated): class_scale (instance for every class of the snapshot), class_estimator_routing (which
    parameter / functional estimator each class calls), model_classes_rho_routed (every AR / MA / ARMA class hands the
@@ -51,13 +67,18 @@
      eigen_criteria_shift, eigen_criteria_order   aic_eigen / mdl_eigen exactly as coded (criteria.py): s -> m*s adds the same constant
                         (2 N ln m, N ln m) to every entry, so every comparison made by numpy.argmin -- the subspace dimension chosen by
                         eigen() under criteria='aic'/'mdl' -- is unchanged (formula-level model over the reals, positive singular values)
-   NOT PROVED here (search on the implementation only): arma_estimate / ma (no merged model), DaniellPeriodogram,
-   arcovar_marple / modcovar_marple recursions; the link between the real-number model of aic_eigen / mdl_eigen
+     daniell_smooth_scale, daniell_scale   DaniellPeriodogram (Model/Daniell.v, tied here by exact and binary64 correspondence): the
+                        smoother is linear in the bins, hence DaniellPeriodogram(c*x) = |c|^2 DaniellPeriodogram(x) for ANY c, every P, NFFT,
+                        window, detrend / scale_by_freq value, real and complex layout (pdaniell stores that array as it is: class_scale)
+   NOT PROVED here (search on the implementation only): arcovar_marple / modcovar_marple recursions
+   (in arma_estimate they enter as the oracle [lsm]: the theorem assumes that arcovar_marple, like any solver of the normal
+   equations of a full-rank system, does not see a common factor of its input); the link between the real-number model of aic_eigen / mdl_eigen
    (eigen_criteria_shift, eigen_criteria_order) and the oracle argument [amin] of the Eigen model is by inspection;
    that numpy's svd / lstsq return related factorisations for x and c*x (the theorems
    are over their specifications); rounding. *)
 From Coq Require Import Reals Lra QArith Qcanon String.
 Require Import Spectrum.Proofs.CriteriaR Spectrum.Proofs.CriteriaEigenR_C03.
+Require Import Spectrum.Model.ArmaEst Spectrum.Model.ArmaCall.   (* before Yule / Arma2psd / Eigen: their aryule, arma2psd, pclass stay the unqualified ones *)
 Require Import Spectrum.Theory.Ops Spectrum.Theory.Sum Spectrum.Theory.Vec Spectrum.Theory.Order Spectrum.Theory.Dft
                Spectrum.Model.Levinson Spectrum.Model.Burg Spectrum.Model.Corr Spectrum.Model.Periodogram
                Spectrum.Model.Yule Spectrum.Model.Ls Spectrum.Model.Minvar Spectrum.Model.Mtm Spectrum.Model.Eigen
@@ -66,6 +87,7 @@ Require Import Spectrum.Theory.Ops Spectrum.Theory.Sum Spectrum.Theory.Vec Spect
                Spectrum.Proofs.ScalePeriodogram_C03 Spectrum.Proofs.ScaleYule_C03 Spectrum.Proofs.ScaleLs_C03
                Spectrum.Proofs.ScaleMinvar_C03 Spectrum.Proofs.ScaleMtm_C03 Spectrum.Proofs.ScaleEigen_C03
                Spectrum.Proofs.ScaleClass_C03 Spectrum.Proofs.MtmExample
+               Spectrum.Proofs.ArmaEstNondeg Spectrum.Proofs.ScaleArma_C03 Spectrum.Model.Daniell Spectrum.Proofs.ScaleDaniell_C03
                Spectrum.Instances.QcC Spectrum.Instances.QcCOrd Spectrum.Instances.QcCTw.
 
 Section C03.
@@ -277,6 +299,80 @@ Theorem class_arma_scale (twopi : F) (tw : Z -> F) md (p : pipeline) real sbf (s
     = Some (fresult twopi p sbf (st_sampling st) (st_NFFT st) (vscale s S1))
   /\ stored twopi md p real sbf st (vscale s S1) = vscale s (stored twopi md p real sbf st S1).
 Proof. exact (class_arma_scale_thm twopi tw md p real sbf st A B rho s S1). Qed.
+
+(* ---------------- arma.ma, arma.arma_estimate, parma / pma (the model of C15) ---------------- *)
+Theorem ma_scale c (x : list F) Q M : c <> 0 ->
+  (forall b rho, ArmaEst.ma x Q M = inr (b, rho) -> nonzero_data x) ->
+  ArmaEst.ma (vscale c x) Q M = ma_scaled (nrm2 c) (ArmaEst.ma x Q M).
+Proof. exact (ma_scale_thm c x Q M). Qed.
+
+Theorem arma_estimate_scale_solvers (lsm lsq lsm' lsq' : list F -> nat -> list F) c (x : list F) P Q lag : c <> 0 ->
+  (forall r, acorr x lag Unbiased = Some r ->
+     firstn P (lsm' (vscale (nrm2 c) (arma_y r P Q lag)) P) = firstn P (lsm (arma_y r P Q lag) P)
+     /\ lsq' (vscale (nrm2 c) (arma_y r P Q lag)) P = lsq (arma_y r P Q lag) P) ->
+  (forall a b rho, arma_estimate lsm lsq x P Q lag = inr (a, b, rho) -> nonzero_data (arma_resid x a P)) ->
+  arma_estimate lsm' lsq' (vscale c x) P Q lag
+  = match arma_estimate lsm lsq x P Q lag with inl e => inl e | inr (a, b, rho) => inr (a, b, nrm2 c * rho) end.
+Proof. exact (arma_estimate_scale_gen lsm lsq lsm' lsq' c x P Q lag). Qed.
+
+Theorem arma_estimate_scale (lsm lsq : list F -> nat -> list F) c (x : list F) P Q lag : c <> 0 ->
+  (forall s y p, s <> 0 -> firstn p (lsm (vscale s y) p) = firstn p (lsm y p) /\ lsq (vscale s y) p = lsq y p) ->
+  (forall a b rho, arma_estimate lsm lsq x P Q lag = inr (a, b, rho) -> nonzero_data (arma_resid x a P)) ->
+  arma_estimate lsm lsq (vscale c x) P Q lag
+  = match arma_estimate lsm lsq x P Q lag with inl e => inl e | inr (a, b, rho) => inr (a, b, nrm2 c * rho) end.
+Proof. exact (arma_estimate_scale_thm lsm lsq c x P Q lag). Qed.
+
+Theorem ls_cov_homogeneous tol s (y : list F) p : s <> 0 ->
+  firstn p (lsm_cov tol (vscale s y) p) = firstn p (lsm_cov tol y p) /\ lsq_cov tol (vscale s y) p = lsq_cov tol y p.
+Proof. exact (ScaleArma_C03.ls_cov_homogeneous tol s y p). Qed.
+
+Theorem ls_exact_homogeneous s (y : list F) p : s <> 0 -> ls_exact_regular y p ->
+  lsm_exact (vscale s y) p = lsm_exact y p /\ ls_exact (vscale s y) p = ls_exact y p.
+Proof. exact (fun Hs Hr => Logic.conj (lsm_exact_scale s y p Hs Hr) (ls_exact_scale s y p Hs Hr)). Qed.
+
+Theorem arma_estimate_exact_scale c (x : list F) P Q lag : c <> 0 ->
+  (forall r, acorr x lag Unbiased = Some r -> ls_exact_regular (arma_y r P Q lag) P) ->
+  (forall a b rho, arma_estimate lsm_exact ls_exact x P Q lag = inr (a, b, rho) -> nonzero_data (arma_resid x a P)) ->
+  arma_estimate lsm_exact ls_exact (vscale c x) P Q lag
+  = match arma_estimate lsm_exact ls_exact x P Q lag with inl e => inl e | inr (a, b, rho) => inr (a, b, nrm2 c * rho) end.
+Proof. exact (arma_estimate_exact_scale_thm c x P Q lag). Qed.
+
+Theorem arma_class_call_scale tw cl (ar ma : list F) s v N order twopi sampling NFFT real sbf :
+  class_call tw cl ar ma (s * v) N order twopi sampling NFFT real sbf
+  = match class_call tw cl ar ma v N order twopi sampling NFFT real sbf with
+    | inl e => inl e
+    | inr e => inr (mkExposed (x_ar e) (x_ma e) (option_map (fun r => s * r) (x_rho e)) (vscale s (x_psd e)))
+    end.
+Proof. exact (class_call_scale_thm tw cl ar ma s v N order twopi sampling NFFT real sbf). Qed.
+
+Theorem parma_scale_solvers tw (lsm lsq lsm' lsq' : list F -> nat -> list F) c (x : list F) P Q lag twopi sampling NFFT real sbf : c <> 0 ->
+  (forall r, acorr x lag Unbiased = Some r ->
+     firstn P (lsm' (vscale (nrm2 c) (arma_y r P Q lag)) P) = firstn P (lsm (arma_y r P Q lag) P)
+     /\ lsq' (vscale (nrm2 c) (arma_y r P Q lag)) P = lsq (arma_y r P Q lag) P) ->
+  (forall a b rho, arma_estimate lsm lsq x P Q lag = inr (a, b, rho) -> nonzero_data (arma_resid x a P)) ->
+  parma_call tw lsm' lsq' (vscale c x) P Q lag twopi sampling NFFT real sbf
+  = call_scaled (nrm2 c) (parma_call tw lsm lsq x P Q lag twopi sampling NFFT real sbf).
+Proof. exact (parma_scale_gen tw lsm lsq lsm' lsq' c x P Q lag twopi sampling NFFT real sbf). Qed.
+
+Theorem parma_scale tw (lsm lsq : list F -> nat -> list F) c (x : list F) P Q lag twopi sampling NFFT real sbf : c <> 0 ->
+  (forall s y p, s <> 0 -> firstn p (lsm (vscale s y) p) = firstn p (lsm y p) /\ lsq (vscale s y) p = lsq y p) ->
+  (forall a b rho, arma_estimate lsm lsq x P Q lag = inr (a, b, rho) -> nonzero_data (arma_resid x a P)) ->
+  parma_call tw lsm lsq (vscale c x) P Q lag twopi sampling NFFT real sbf
+  = call_scaled (nrm2 c) (parma_call tw lsm lsq x P Q lag twopi sampling NFFT real sbf).
+Proof. exact (parma_scale_thm tw lsm lsq c x P Q lag twopi sampling NFFT real sbf). Qed.
+
+Theorem pma_scale tw c (x : list F) Q M twopi sampling NFFT real sbf : c <> 0 ->
+  (forall b rho, ArmaEst.ma x Q M = inr (b, rho) -> nonzero_data x) ->
+  pma_call tw (vscale c x) Q M twopi sampling NFFT real sbf = call_scaled (nrm2 c) (pma_call tw x Q M twopi sampling NFFT real sbf).
+Proof. exact (pma_scale_thm tw c x Q M twopi sampling NFFT real sbf). Qed.
+
+(* ---------------- DaniellPeriodogram ---------------- *)
+Theorem daniell_smooth_scale s (psd : list F) P : daniell_smooth (vscale s psd) P = vscale s (daniell_smooth psd P).
+Proof. exact (daniell_smooth_scale_thm s psd P). Qed.
+
+Theorem daniell_scale tw twopi c (x w : list F) P NFFT isreal dt sbf fs :
+  daniell tw twopi (vscale c x) w P NFFT isreal dt sbf fs = vscale (nrm2 c) (daniell tw twopi x w P NFFT isreal dt sbf fs).
+Proof. exact (daniell_scale_thm tw twopi c x w P NFFT isreal dt sbf fs). Qed.
 End C03.
 
 Theorem log_criteria_homogeneous (N s r1 r2 k1 k2 : R) : (0 < s -> 0 < r1 -> 0 < r2 ->
@@ -405,6 +501,77 @@ Example eigen_scale_example :
 Proof. split; [vm_compute; reflexivity|]. split; [vm_compute; reflexivity|]. split; [eexists; vm_compute; reflexivity|vm_compute; reflexivity]. Qed.
 Local Close Scope Z_scope.
 
+(* ---- arma.ma / arma_estimate / parma on a concrete complex sequence (the oracles of C15's correspondence run and the solver of
+   Model/Ls.v): the hypotheses of the theorems are met, the calls return a model ---- *)
+Local Open Scope Z_scope.
+Definition c03_ax : list QcC := [cz (1,0) (0,0); cz (-1,1) (1,0); cz (3,0) (0,0); cz (1,0) (-1,0); cz (-1,0) (1,1);
+                                 cz (1,1) (0,0); cz (1,0) (1,0); cz (-3,0) (0,0); cz (1,0) (0,0); cz (1,1) (-1,0)].
+Local Close Scope Z_scope.
+Lemma c03_c_neq0 : c03_c <> zero (Ops:=qcc_ops). Proof. intro E. inversion E. Qed.
+Lemma c03_ax_nonzero : @nonzero_data _ qcc_ops c03_ax.
+Proof. exists O. split; [vm_compute; lia|]. intro E. inversion E. Qed.
+Example ma_scale_example :
+  @ArmaEst.ma _ qcc_ops (@vscale _ qcc_ops c03_c c03_ax) 2 4 = @ma_scaled _ qcc_ops (@nrm2 _ qcc_ops c03_c) (@ArmaEst.ma _ qcc_ops c03_ax 2 4)
+  /\ exists b rho, @ArmaEst.ma _ qcc_ops c03_ax 2 4 = inr (b, rho).
+Proof.
+  split; [|vm_compute; do 2 eexists; reflexivity].
+  exact (@ma_scale _ qcc_ops qcc_laws qcc_ord c03_c c03_ax 2 4 c03_c_neq0 (fun _ _ _ => c03_ax_nonzero)).
+Qed.
+Notation c03_AE x := (@arma_estimate _ qcc_ops (@lsm_exact _ qcc_ops) (@ls_exact _ qcc_ops) x 1 1 3) (only parsing).
+Notation c03_AEcov x := (@arma_estimate _ qcc_ops (@lsm_cov _ qcc_ops c03_tol) (@lsq_cov _ qcc_ops c03_tol) x 1 1 3) (only parsing).
+Definition c03_est := Eval vm_compute in c03_AE c03_ax.
+Definition c03_estcov := Eval vm_compute in c03_AEcov c03_ax.
+Definition c03_r := Eval vm_compute in @acorr _ qcc_ops c03_ax 3 Unbiased.
+Lemma c03_est_eq : c03_AE c03_ax = c03_est. Proof. vm_compute. reflexivity. Qed.
+Lemma c03_estcov_eq : c03_AEcov c03_ax = c03_estcov. Proof. vm_compute. reflexivity. Qed.
+Lemma c03_r_eq : @acorr _ qcc_ops c03_ax 3 Unbiased = c03_r. Proof. vm_compute. reflexivity. Qed.
+Lemma c03_arma_nondeg : @arma_nondeg _ qcc_ops (@lsm_exact _ qcc_ops) (@ls_exact _ qcc_ops) c03_ax 1 1 3.
+Proof.
+  intros a b rho H. rewrite c03_est_eq in H. unfold c03_est in H. injection H as <- _ _.
+  exists O. split; [vm_compute; lia|]. vm_compute. intro E. inversion E.
+Qed.
+Lemma c03_arma_regular r : @acorr _ qcc_ops c03_ax 3 Unbiased = Some r -> @ls_exact_regular _ qcc_ops (@arma_y _ qcc_ops r 1 1 3) 1.
+Proof.
+  intros Hr. rewrite c03_r_eq in Hr. unfold c03_r in Hr. injection Hr as <-. split; [|exact I]. vm_compute. intro E. inversion E.
+Qed.
+(* the oracles of the correspondence run: regular pivots, non-zero residual, a model is returned *)
+Example arma_estimate_scale_example :
+  @arma_estimate _ qcc_ops (@lsm_exact _ qcc_ops) (@ls_exact _ qcc_ops) (@vscale _ qcc_ops c03_c c03_ax) 1 1 3
+  = @arma_scaled _ qcc_ops (@nrm2 _ qcc_ops c03_c) (@arma_estimate _ qcc_ops (@lsm_exact _ qcc_ops) (@ls_exact _ qcc_ops) c03_ax 1 1 3)
+  /\ exists a b rho, @arma_estimate _ qcc_ops (@lsm_exact _ qcc_ops) (@ls_exact _ qcc_ops) c03_ax 1 1 3 = inr (a, b, rho).
+Proof.
+  split; [|vm_compute; do 3 eexists; reflexivity].
+  exact (@arma_estimate_exact_scale _ qcc_ops qcc_laws qcc_ord c03_c c03_ax 1 1 3 c03_c_neq0 c03_arma_regular c03_arma_nondeg).
+Qed.
+(* the solver of Model/Ls.v as the oracle pair: homogeneous by ls_cov_homogeneous; parma stores |c|^2 times the PSD (4 bins, tw4) *)
+Lemma c03_cov_nondeg : @arma_nondeg _ qcc_ops (@lsm_cov _ qcc_ops c03_tol) (@lsq_cov _ qcc_ops c03_tol) c03_ax 1 1 3.
+Proof.
+  intros a b rho H. rewrite c03_estcov_eq in H. unfold c03_estcov in H. injection H as <- _ _.
+  exists O. split; [vm_compute; lia|]. vm_compute. intro E. inversion E.
+Qed.
+Definition c03_twopi : QcC := cz (25,-2)%Z (0,0)%Z.
+Definition c03_fs : QcC := cz (2,0)%Z (0,0)%Z.
+Example parma_scale_example :
+  @parma_call _ qcc_ops tw4 (@lsm_cov _ qcc_ops c03_tol) (@lsq_cov _ qcc_ops c03_tol) (@vscale _ qcc_ops c03_c c03_ax) 1 1 3 c03_twopi c03_fs 4 false true
+  = @call_scaled _ qcc_ops (@nrm2 _ qcc_ops c03_c)
+      (@parma_call _ qcc_ops tw4 (@lsm_cov _ qcc_ops c03_tol) (@lsq_cov _ qcc_ops c03_tol) c03_ax 1 1 3 c03_twopi c03_fs 4 false true)
+  /\ match @parma_call _ qcc_ops tw4 (@lsm_cov _ qcc_ops c03_tol) (@lsq_cov _ qcc_ops c03_tol) c03_ax 1 1 3 c03_twopi c03_fs 4 false true with
+     | inr e => (length (x_psd e) =? 4)%nat && nonzero_list (x_psd e)        (* an object is returned, 4 bins, not all zero *)
+     | inl _ => false
+     end = true.
+Proof.
+  split; [|vm_compute; reflexivity].
+  exact (@parma_scale _ qcc_ops qcc_laws qcc_ord tw4 _ _ c03_c c03_ax 1 1 3 c03_twopi c03_fs 4%nat false true c03_c_neq0
+           (fun s y p Hs => @ls_cov_homogeneous _ qcc_ops qcc_laws qcc_ord c03_tol s y p Hs) c03_cov_nondeg).
+Qed.
+
+Example daniell_scale_example :
+  @daniell _ qcc_ops tw4 c03_twopi (@vscale _ qcc_ops c03_c c03_x4) c03_w4 1 (Some 4%nat) false PyTrue PyTrue c03_fs
+  = @vscale _ qcc_ops (@nrm2 _ qcc_ops c03_c) (@daniell _ qcc_ops tw4 c03_twopi c03_x4 c03_w4 1 (Some 4%nat) false PyTrue PyTrue c03_fs)
+  /\ (length (@daniell _ qcc_ops tw4 c03_twopi c03_x4 c03_w4 1 (Some 4%nat) false PyTrue PyTrue c03_fs) =? 2)%nat
+     && nonzero_list (@daniell _ qcc_ops tw4 c03_twopi c03_x4 c03_w4 1 (Some 4%nat) false PyTrue PyTrue c03_fs) = true.
+Proof. split; [exact (@daniell_scale _ qcc_ops qcc_laws tw4 c03_twopi c03_c c03_x4 c03_w4 1 (Some 4%nat) false PyTrue PyTrue c03_fs)|vm_compute; reflexivity]. Qed.
+
 Print Assumptions acorr_scale.
 Print Assumptions levinson_scale.
 Print Assumptions arburg_scale.
@@ -444,6 +611,18 @@ Print Assumptions ev_scales_bin.
 Print Assumptions pclass_scale.
 Print Assumptions class_scale_every_table.
 Print Assumptions class_arma_scale.
+Print Assumptions ma_scale.
+Print Assumptions arma_estimate_scale_solvers.
+Print Assumptions arma_estimate_scale.
+Print Assumptions ls_cov_homogeneous.
+Print Assumptions ls_exact_homogeneous.
+Print Assumptions arma_estimate_exact_scale.
+Print Assumptions arma_class_call_scale.
+Print Assumptions parma_scale_solvers.
+Print Assumptions parma_scale.
+Print Assumptions pma_scale.
+Print Assumptions daniell_smooth_scale.
+Print Assumptions daniell_scale.
 Print Assumptions log_criteria_homogeneous.
 Print Assumptions eigen_criteria_shift.
 Print Assumptions eigen_criteria_order.
